@@ -259,6 +259,17 @@ def _writer_agreement(chk: Check, schema: Schema, pf: ProtoFlow, msgs: List[str]
         chk.ob("R02.2", "ByteInterval.address@%s:guard" % w.f.qualname, ok, w.loc,
                "ByteInterval.address is assigned on a path where self.address may be None or its "
                "presence was decided by truthiness (%s)" % why, 2)
+    for (m_, f_, attr_) in (("Module", "entry_point", "entry_point"), ("Symbol", "referent_uuid", "referent"),
+                            ("SymAddrConst", "symbol_uuid", "symbol")):
+        for w in pf.written(m_, f_):
+            cfgw = CFG(w.f.node)
+            none_b, notnone_b = _none_test_branches(cfgw, attr_)
+            if not notnone_b and not none_b:
+                continue       # unconditionally present in this writer
+            okw, whyw = _guarded_not_none(w, attr_)
+            chk.ob("R02.2", "%s.%s@%s:guard" % (m_, f_, w.f.qualname), okw, w.loc,
+                   "%s.%s is written from self.%s on a path that did not establish it is not None (%s)"
+                   % (m_, f_, attr_, whyw), 2)
     for w in pf.written("Symbol", "value"):
         ok, why = _guarded_not_none(w, "value")
         chk.ob("R02.2", "Symbol.value@%s:guard" % w.f.qualname, ok, w.loc,
@@ -464,7 +475,7 @@ def _sinks(repo: Repo, f: FuncInfo, node: ast.AST, depth: int = 0, seen: Optiona
             params = _ctor_params(repo, f, par.func)
             if params is not None and last not in _NEUTRAL_CALLS:
                 idx = par.args.index(cur)
-                if last in ("_from_protobuf", "_decode_protobuf", "_read_protobuf_aux_data"):
+                if last in ("_from_protobuf", "_read_protobuf_aux_data"):
                     pass      # decoding helper: the result carries the value on
                 elif idx < len(params):
                     out.add(params[idx])
@@ -507,7 +518,10 @@ def _sinks(repo: Repo, f: FuncInfo, node: ast.AST, depth: int = 0, seen: Optiona
                 if comp is not None:
                     out |= _sinks(repo, f, comp, depth + 1, seen)
             return out
-        if isinstance(par, (ast.If, ast.While, ast.IfExp)) and par.test is cur:
+        if isinstance(par, ast.IfExp) and par.test is cur:
+            cur, par = par, getattr(par, "_parent", None)     # the test selects the value that flows on
+            continue
+        if isinstance(par, (ast.If, ast.While)) and par.test is cur:
             return out
         if isinstance(par, ast.IfExp) and par.test is not cur:
             cur, par = par, getattr(par, "_parent", None)
@@ -543,7 +557,7 @@ def _reader_agreement(chk: Check, schema: Schema, pf: ProtoFlow, msgs: List[str]
                 # sub-messages are decoded by their own reader; the kind check is R02.3k
                 ok = not wrong or want in sinks
             else:
-                ok = (want in sinks or not sinks) and not wrong
+                ok = want in sinks and not wrong
             chk.ob("R02.3", "%s.%s:flows-to(%s)" % (m, fname, want), ok, reads[0].loc,
                    "%s.%s is read into %s; it must reach the constructor keyword / attribute '%s'"
                    % (m, fname, sorted(sinks) or "nothing recognisable", want), 3 if sinks else 0)
